@@ -543,8 +543,11 @@ pub fn exec(plan: &ConcPlan) -> RunOut {
         }
         let _ = &found_strict;
     }
-    if lins.is_empty() && http {
-        // second, relaxed search: recognises known finding F1 and nothing else
+    let strict_found = !lins.is_empty();
+    if (lins.is_empty() || want_all) && http {
+        // second, relaxed search: recognises known finding F1 and nothing else. It also runs when
+        // crash images are to be judged: the real commit order may be one that only F1 explains
+        // (an AddSnapshot that saw the half-created client before the AddVersion committed)
         let wref = &mut w;
         let mut on_match2 = |m: &Model, order: &[usize], path: &[Model]| -> bool {
             wref.model = m.clone();
@@ -559,7 +562,9 @@ pub fn exec(plan: &ConcPlan) -> RunOut {
                 if matched.is_none() {
                     matched = Some(m.clone());
                 }
-                lins.push((order.to_vec(), path.to_vec()));
+                if !lins.iter().any(|(o, _)| o.as_slice() == order) {
+                    lins.push((order.to_vec(), path.to_vec()));
+                }
                 !want_all
             } else {
                 false
@@ -569,7 +574,7 @@ pub fn exec(plan: &ConcPlan) -> RunOut {
         let mut path = Vec::new();
         let mut tried2 = 0;
         search(&live, &done, &mut placed, &mut path, &base_model, http, true, &mut on_match2, &mut tried2);
-        if !lins.is_empty() {
+        if !lins.is_empty() && !strict_found {
             half_created = true;
         }
     }
@@ -838,6 +843,9 @@ fn verify_overlap_image(plan: &ConcPlan, base: &Model, live: &[Done], lins: &[(V
                 w.compare_state(&proj, &mut vs);
                 if vs.is_empty() {
                     return None;
+                }
+                if std::env::var("VERIF_DEBUG_OVERLAP").is_ok() {
+                    eprintln!("DEBUG overlap image #{idx}: order {:?} prefix {k} rejected: {}", order, vs[0].msg);
                 }
                 why = vs[0].msg.clone();
             }
